@@ -91,3 +91,30 @@ Module GEO.
 End GEO.
 Print Assumptions GEO.C02_euclidean_rows_within_maximum.
 Print Assumptions GEO.C02_osrm_row_guard_is_code.
+
+
+(* tie to the source, the trip filter: the chain of tests on `enabled` in TransitData::getConnectionsForScenario
+   (transit_data.cpp) and its second, live copy over the REQUEST's lists in Calculator::resetFilters (resets.cpp) are read
+   AS THEY ARE NOW by tools/gen_scenario.py (gen/Scenario.v: per test the list whose size() > 0 is required, the list
+   searched, the trip attribute, `== end` / `!= end`, the value written, the conjunct `enabled`; empty bodies included) and
+   executed by the interpreter of ScenCode.v.  "Only rides trips the scenario admits" is stated with Data.trip_enabled /
+   Spec.trip_admitted: these ARE what the two chains compute *)
+Require TrV.ScenCode TrV.gen.Scenario.
+From TrV Require Proofs.ScenarioTie.
+Module SCN.
+  Import TrV.ScenCode TrV.Proofs.ScenarioTie.
+  Theorem C02_scenario_filter_is_code : forall d s t,
+    trip_enabled d s t = run_filter GS.gen_scen_filter d s t.
+  Proof. exact scen_filter_is_code. Qed.
+  Print Assumptions C02_scenario_filter_is_code.
+  Theorem C02_request_filter_is_code : forall d s p t,
+    trip_admitted d s p t =
+    run_filter GS.gen_scen_filter d s t && run_filter_on GS.gen_reset_filter d (param_lists p) t.
+  Proof. exact request_filter_is_code. Qed.
+  Print Assumptions C02_request_filter_is_code.
+  (* the per-request exclusion the scans test (Scan.disabled_of, k_disabled) is the map the loop of resetFilters leaves *)
+  Theorem C02_disabled_trips_is_code : forall d p cs t,
+    b_maps (run_reset_loop d p cs) 0%nat t = disabled_of d p cs t.
+  Proof. exact reset_loop_is_code. Qed.
+  Print Assumptions C02_disabled_trips_is_code.
+End SCN.
